@@ -80,9 +80,10 @@ def _spec(cell, cut, dx, dy, dz, margin):
     return (z3.Or(*ins) if ins else z3.BoolVal(False)), (z3.And(*outs) if outs else z3.BoolVal(True))
 
 
-def voxel_pair(cell: str = "cubic3", cut_frac: float = 0.8, g0: int = 0, periodic: bool = True, points: str = "", grid: str = "coarse"):
+def voxel_pair(cell: str = "cubic3", cut_frac: float = 0.8, g0: int = 0, periodic: bool = True, points: str = "", grid: str = "coarse", spectator: str = "", row: int = -1):
     """g0: index of atom 0's (y, z) grid point (0..15); atom 1 runs over the whole grid.  points: 'y0,z0,y1,z1' (Cartesian, nm) replaces the grid by
-    one explicit pair of (y, z) positions"""
+    one explicit pair of (y, z) positions.  spectator: 'x,y,z' of a third, concrete atom far from both (it stretches the bounding box that
+    sets the voxel grid when there is no cell); its list must stay empty.  row >= 0: atom 1 runs over ONE row of the grid (that y, every z)"""
     t0 = time.time()
     P = program()
     cm = [[F(v) for v in r] for r in CELLS[cell]]
@@ -97,15 +98,18 @@ def voxel_pair(cell: str = "cubic3", cut_frac: float = 0.8, g0: int = 0, periodi
     seen = {True: 0, False: 0}
     box = [v for r in cm for v in r]
     explicit = [F(v).limit_denominator(100000) for v in points.split(",")] if points else None
-    for fy1, fz1 in (itertools.product(GR, GR) if not explicit else [(None, None)]):
+    for fy1, fz1 in (itertools.product(GR if row < 0 else [GR[row]], GR) if not explicit else [(None, None)]):
         # Cartesian y, z of the grid points (fractional along b and c; the x contribution of b and c is absorbed by the symbolic x)
         def yz(fy, fz):
             return fy * cm[1][1] + fz * cm[2][1], fz * cm[2][2]
         (y0, z0), (y1, z1) = (yz(fy0, fz0), yz(fy1, fz1)) if not explicit else ((explicit[0], explicit[1]), (explicit[2], explicit[3]))
         xyz = [X.SReal(x0), y0, z0, X.SReal(x1), y1, z1]
+        spec3 = [F(v).limit_denominator(100000) for v in spectator.split(",")] if spectator else []
+        xyz += spec3
+        n_at = 3 if spec3 else 2
 
         def run():
-            r = P.env["_compute_neighborlist"](X.Ptr(list(xyz), 0), 2, cut, X.Ptr(list(box), 0) if periodic else None)
+            r = P.env["_compute_neighborlist"](X.Ptr(list(xyz), 0), n_at, cut, X.Ptr(list(box), 0) if periodic else None)
             return [list(v.a) for v in r.a]
         spec_in, spec_out = _spec(cm, cut, x1 - x0, y1 - y0, z1 - z0, margin) if periodic else (None, None)
         if not periodic:
@@ -118,9 +122,9 @@ def voxel_pair(cell: str = "cubic3", cut_frac: float = 0.8, g0: int = 0, periodi
         try:
             for path, lists, ctx, stats in X.explore(run, base, max_paths=4000, timeout_ms=20000):
                 tot["paths"] += 1
-                ok_shape = len(lists) == 2 and all(isinstance(v, int) for l in lists for v in l)
-                got_in = lists == [[1], [0]]
-                got_out = lists == [[], []]
+                ok_shape = len(lists) == n_at and all(isinstance(v, int) for l in lists for v in l)
+                got_in = lists == [[1], [0]] + [[]] * (n_at - 2)
+                got_out = lists == [[], []] + [[]] * (n_at - 2)
                 if not ok_shape or not (got_in or got_out):
                     why = f"lists {lists} are neither the symmetric pair nor empty (asymmetric, duplicated or foreign entries)"
                     goal = z3.BoolVal(True)
@@ -137,7 +141,7 @@ def voxel_pair(cell: str = "cubic3", cut_frac: float = 0.8, g0: int = 0, periodi
                 if r == z3.sat:
                     m = s.model()
                     val = lambda v: float(m.eval(v, model_completion=True).as_fraction())
-                    pos = [[val(x0), float(y0), float(z0)], [val(x1), float(y1), float(z1)]]
+                    pos = [[val(x0), float(y0), float(z0)], [val(x1), float(y1), float(z1)]] + ([[float(v) for v in spec3]] if spec3 else [])
                     rep, script = replay(cell, float(cut), pos, periodic)
                     return {**tot, "status": "cex", "detail": f"cell {cell}, cutoff {float(cut):.4f}, atoms at {pos}: {why}; lists {lists}",
                             "cex": {"goal": "voxel_pair", "key": "voxel_pair", "inputs": {"cell": cell, "cutoff": float(cut), "positions": pos}, "reproduced": rep, "replay_script": script}}
@@ -152,7 +156,7 @@ def voxel_pair(cell: str = "cubic3", cut_frac: float = 0.8, g0: int = 0, periodi
         except (X.Unsupported, X.LowerError) as e:
             return {**tot, "status": "inconclusive", "detail": f"{type(e).__name__}: {e}"}
     tot["solver_s"] = round(tot["solver_s"], 2)
-    if not (seen[True] and seen[False]) and not explicit:
+    if not (seen[True] and seen[False]) and not explicit and row < 0:
         return {**tot, "status": "inconclusive", "detail": f"reachability twin failed: paths with the pair listed {seen[True]}, not listed {seen[False]}"}
     return {**tot, "status": "holds", "twin_ok": True, "wall_s": round(time.time() - t0, 2)}
 
@@ -178,8 +182,8 @@ fp = lambda a: a.ctypes.data_as(ctypes.c_void_p)
 case = json.loads(%(case)r)
 cell = np.array(case["cell"], dtype=float); xyz = np.array(case["positions"], dtype=np.float32); cut = case["cutoff"]
 out = np.zeros(64, dtype=np.int32); box = np.ascontiguousarray(cell, dtype=np.float32)
-k = lib.vt_nl(fp(xyz), 2, ctypes.c_float(cut), fp(box) if case["periodic"] else None, fp(out), 64)
-lists = [[], []]
+k = lib.vt_nl(fp(xyz), len(xyz), ctypes.c_float(cut), fp(box) if case["periodic"] else None, fp(out), 64)
+lists = [[] for _ in xyz]
 for a, b in out[:k].reshape(-1, 2): lists[a].append(int(b))
 r = xyz[1].astype(float) - xyz[0].astype(float)
 if case["periodic"]:
@@ -188,7 +192,7 @@ if case["periodic"]:
 else:
     dist = np.linalg.norm(r)
 print("positions", xyz.tolist(), "cutoff", cut, ": minimum-image distance", round(float(dist), 5), " neighbour lists", lists)
-want = [[1], [0]] if dist < cut else [[], []]
+want = ([[1], [0]] if dist < cut else [[], []]) + [[] for _ in xyz[2:]]
 sys.exit(1 if (abs(dist - cut) > 1e-4 and lists != want) else 0)
 '''
 
